@@ -8,6 +8,7 @@ CONSTANTS
   ConsSet <- BoolSet
   MaxSteps = 2
   Emit = TRUE
+  MatChange = FALSE
   Mutant = "none"
 INVARIANT Motion
 INVARIANT Prescribed
